@@ -17,6 +17,10 @@ variables, opens / writes / re-reads a scratch file) plus every placement of one
              cont_lit   literal on a continuation line
              directive  on a '#define' line of an unused macro
   case       as written (upper) / lower / Mixed   (both triggers of a pair use the same variant)
+  dup        switch: the whole kernel is in the file twice, as two textually identical routines kern / kern2
+             (the sanitiser works line by line and keys its undo records by line number: a statement that
+             occurs twice must be restored twice).  Applied to the base kernel and to every single placement
+             (quick: the upper-case variants); both copies are judged, the driver calls both.
   (8 x 11 x 3 minus the inapplicable combinations; the nine positions of the design plus
    open_file and cont_arg.)
 
@@ -116,7 +120,7 @@ def trigger_text(trig, case, ctx, sp):
     return recase(trig, case)
 
 
-def build(placements, seed=0, modname='c05_mod'):
+def build(placements, seed=0, modname='c05_mod', dup=False):
     """placements: list of (trigger, position, case).  Returns dict(source, expect...)"""
     sp = spell(seed)
     w = sp['w']
@@ -172,11 +176,7 @@ def build(placements, seed=0, modname='c05_mod'):
         open_stmt = f"open({unit_arg}, file='{fname}', form='unformatted', access='stream', status='replace'{conv1})"
     directive = f'#define {modname.upper()}_UNUSED {T("directive", "plain")}\n' if 'directive' in P else ''
     # the ident assignment is written without blanks around '=' so that 'xconvert=' / 'xnewunit=' occur literally
-    src = f"""module {modname}
-  implicit none
-contains
-  subroutine kern(n)
-    integer, intent(in) :: n
+    body = f"""    integer, intent(in) :: n
     character(len=96) :: s1, s2, s3, s4, fname
     integer :: {u}, ival, jval, {ident}
 {directive}    {cmt}
@@ -201,22 +201,27 @@ contains
     print '(A)', trim(s4)
     print '(A)', trim(fname)
     print '(I0,1X,I0,1X,I0)', ival, jval, {ident}
-  end subroutine kern
-end module {modname}
 """
+    # 'dup': the same routine body a second time, textually identical line by line, under another name
+    routines = ['kern', 'kern2'] if dup else ['kern']
+    src = f'module {modname}\n  implicit none\ncontains\n' + ''.join(
+        f'  subroutine {r}(n)\n{body}  end subroutine {r}\n' for r in routines) + f'end module {modname}\n'
     # literal values as Fortran sees them (a doubled delimiter would be one character; none are generated)
     expect_lits = {'s1': [lit['s1']], 's2': [lit['s2']], 's3': ['left', lit['s3b']], 's4': [lit['s4']]}
     return dict(source=src, lits=expect_lits, comments=[cmt, icmt], ident=ident, real_args=real_args, unit=u,
+                routines=routines,
                 open_stmt=open_stmt, cont_real=cont_form)
 
 
-def driver(modnames):
-    """Harness-owned driver (never goes through Loki): calls every kernel, framing its output."""
+def driver(mods):
+    """Harness-owned driver (never goes through Loki): calls every kernel, framing its output.
+    mods: list of (module name, [routine names])."""
     lines = ['program c05_drv']
-    lines += [f'  use {m}, only: kern_{k} => kern' for k, m in enumerate(modnames)]
+    for k, (m, rs) in enumerate(mods):
+        lines += [f'  use {m}, only: ' + ', '.join(f'{r}_{k} => {r}' for r in rs)]
     lines += ['  implicit none']
-    for k, m in enumerate(modnames):
-        lines += [f"  print '(A)', '#@ {m}'", f'  call kern_{k}(3)']
+    for k, (m, rs) in enumerate(mods):
+        lines += [f"  print '(A)', '#@ {m}'"] + [f'  call {r}_{k}(3)' for r in rs]
     lines += ['end program c05_drv', '']
     return '\n'.join(lines)
 
@@ -262,20 +267,21 @@ def open_args(stmt_tokens):
     return out
 
 
-def first_open(text):
+def all_opens(text):
+    out = []
     for st in lx.statements(text):
         toks = lx.statement_tokens(st)
         if toks and toks[0].lower() == 'open' and len(toks) > 1 and toks[1] == '(':
-            return toks
-    return None
+            out.append(toks)
+    return out
 
 
-def ir_facts(sf):
+def ir_facts(sf, rname='kern'):
     """Literal values per assigned string variable, comment texts, variable names -- read off the IR."""
     from loki.ir import nodes as ir, FindNodes
     from loki.ir.expr_visitors import FindLiterals
     from loki.expression import symbols as sym
-    routine = sf['kern']
+    routine = sf[rname]
     lits = {}
     comments = []
     for a in FindNodes(ir.Assignment).visit(routine.body):
@@ -296,18 +302,20 @@ def ir_facts(sf):
     return lits, comments, names
 
 
-def analyse(placements, seed=0, modname='c05_mod'):
-    """Stages 1-5 (no compiler).  Returns dict(atoms=[(slot, kind, detail)], info, source, regen)."""
+def analyse(placements, seed=0, modname='c05_mod', dup=False):
+    """Stages 1-5 (no compiler).  Returns dict(atoms=[(slot, kind, detail)], info, source, regen).
+    With dup the kernel is in the file twice (textually identical routines kern and kern2); everything is demanded of
+    both copies.  A failure that only the second copy shows gets ' (only in the second, identical copy)' in its kind."""
     _silence()
     from loki import Sourcefile, Frontend
-    b = build(placements, seed, modname)
+    b = build(placements, seed, modname, dup=dup)
     info = dict(parsed=False, unsupported=False, compared=False)
     atoms = []
-    res = dict(atoms=atoms, info=info, source=b['source'], regen=None, modname=modname)
+    res = dict(atoms=atoms, info=info, source=b['source'], regen=None, modname=modname, routines=b['routines'])
     try:
         sf = Sourcefile.from_source(b['source'], frontend=Frontend.FP)
         regen = sf.to_fortran()
-        lits, comments, names = ir_facts(sf)
+        facts = [ir_facts(sf, r) for r in b['routines']]
     except Exception as e:  # pylint: disable=broad-except
         if b['cont_real']:
             # is it the real argument on the continuation line alone that the frontend rejects?
@@ -321,31 +329,46 @@ def analyse(placements, seed=0, modname='c05_mod'):
         return res
     info['parsed'] = True
     res['regen'] = regen
-    for var, want in b['lits'].items():
-        got = lits.get(var, [])
-        if sorted(got) != sorted(want):
-            atoms.append((var, 'literal value changed', f'{var}: source has {want!r}, IR has {got!r}'))
-    got_c = [c.strip() for c in comments]
-    for slot, want in zip(('cmt', 'icmt'), b['comments']):
-        if want not in got_c:
-            near = [c for c in got_c if c[:6] == want[:6]]
-            atoms.append((slot, 'comment text changed', f'source has {want!r}, IR has {near or got_c!r}'))
-    if b['ident'].lower() not in names:
-        atoms.append(('ident', 'identifier changed', f'{b["ident"]!r} is not a variable of the routine: {sorted(names)}'))
-    # OPEN statement: argument-wise equal to the original (covers restoration and the FILE= literal)
-    o_src = open_args(first_open(b['source']))
-    ro = first_open(regen)
-    o_reg = open_args(ro) if ro else None
-    if o_reg != o_src:
+    SECOND = ' (only in the second, identical copy)'
+
+    def add(copy, slot, kind, detail):
+        if copy and not any(a[0] == slot and a[1] == kind for a in atoms):
+            kind += SECOND
+        if not any(a[0] == slot and a[1] == kind for a in atoms):
+            atoms.append((slot, kind, detail if not copy else f'routine kern2: {detail}'))
+
+    for copy, (lits, comments, names) in enumerate(facts):
+        for var, want in b['lits'].items():
+            got = lits.get(var, [])
+            if sorted(got) != sorted(want):
+                add(copy, var, 'literal value changed', f'{var}: source has {want!r}, IR has {got!r}')
+        got_c = [c.strip() for c in comments]
+        for slot, want in zip(('cmt', 'icmt'), b['comments']):
+            if want not in got_c:
+                near = [c for c in got_c if c[:6] == want[:6]]
+                add(copy, slot, 'comment text changed', f'source has {want!r}, IR has {near or got_c!r}')
+        if b['ident'].lower() not in names:
+            add(copy, 'ident', 'identifier changed', f'{b["ident"]!r} is not a variable of the routine: {sorted(names)}')
+    # every OPEN statement: argument-wise equal to its original (covers restoration and the FILE= literal)
+    src_opens, reg_opens = all_opens(b['source']), all_opens(regen)
+    per = len(src_opens) // len(b['routines'])
+    for k, so in enumerate(src_opens):
+        copy = k // per
+        o_src = open_args(so)
+        ro = reg_opens[k] if k < len(reg_opens) else None
+        o_reg = open_args(ro) if ro else None
+        if o_reg == o_src:
+            continue
         lost = sorted(set(o_src) - set(o_reg or {}))
-        changed = sorted(k for k in o_src if o_reg and k in o_reg and o_reg[k] != o_src[k])
-        if b['real_args'] and any(k in b['real_args'] for k in lost + changed):
-            atoms.append(('openarg', 'real OPEN argument not restored',
-                          f'lost {lost} changed {changed}; regenerated: {" ".join(ro or [])[:200]}'))
-        if not b['real_args'] or any(k not in b['real_args'] for k in lost + changed) or (o_reg and set(o_reg) - set(o_src)):
-            atoms.append(('openfile', 'OPEN statement altered',
-                          f'lost {lost} changed {changed} extra {sorted(set(o_reg or {}) - set(o_src))}; '
-                          f'regenerated: {" ".join(ro or [])[:200]}'))
+        changed = sorted(x for x in o_src if o_reg and x in o_reg and o_reg[x] != o_src[x])
+        extra = sorted(set(o_reg or {}) - set(o_src))
+        real = b['real_args'] if k % per == 0 else {}
+        if real and any(x in real for x in lost + changed):
+            add(copy, 'openarg', 'real OPEN argument not restored',
+                f'lost {lost} changed {changed} extra {extra}; regenerated: {" ".join(ro or [])[:200]}')
+        if not real or any(x not in real for x in lost + changed) or extra:
+            add(copy, 'openfile', 'OPEN statement altered',
+                f'lost {lost} changed {changed} extra {extra}; regenerated: {" ".join(ro or [])[:200]}')
     return res
 
 
@@ -363,7 +386,7 @@ def gf_stage(results, scratch):
     todo = [r for r in results if r['regen'] is not None]
     if not todo:
         return
-    mods = [r['modname'] for r in todo]
+    mods = [(r['modname'], r['routines']) for r in todo]
     r0 = gf.compile_and_run([('orig.f90', '\n'.join(r['source'] for r in todo)), ('drv.f90', driver(mods))],
                             flags=GF_FLAGS, base=scratch, timeout=300)
     if not r0['ok']:
@@ -379,7 +402,7 @@ def gf_stage(results, scratch):
         if f1 is not None:
             out1, fail = f1.get(m), None
         else:
-            x = gf.compile_and_run([('regen.f90', r['regen'] + '\n'), ('drv.f90', driver([m]))], flags=GF_FLAGS,
+            x = gf.compile_and_run([('regen.f90', r['regen'] + '\n'), ('drv.f90', driver([(m, r['routines'])]))], flags=GF_FLAGS,
                                    base=scratch, timeout=120)
             out1 = split_frames(x['out']).get(m) if x['ok'] else None
             fail = None if x['ok'] else ('regenerated code does not compile' if x['stage'] == 'compile'
@@ -393,9 +416,9 @@ def gf_stage(results, scratch):
                                f'line {k + 1}: original {d0[k:k + 1]!r}, regenerated {d1[k:k + 1]!r}'))
 
 
-def judge(placements, seed=0, scratch=None):
+def judge(placements, seed=0, scratch=None, dup=False):
     """One case, all stages.  Returns (atoms, info)."""
-    r = analyse(placements, seed)
+    r = analyse(placements, seed, dup=dup)
     gf_stage([r], scratch)
     return r['atoms'], r['info']
 
@@ -435,8 +458,11 @@ def all_singles():
 def work_batch(arg):
     """arg = (list of placement lists, seed, scratch) -> list of (placements, atoms, info) or an error string."""
     cases, seed, scratch = arg
+    dup = False
+    if cases and cases[0] == 'DUP':
+        dup, cases = True, cases[1:]
     try:
-        results = [analyse(pl, seed, modname=f'c05_mod_{k}') for k, pl in enumerate(cases)]
+        results = [analyse(pl, seed, modname=f'c05_mod_{k}', dup=dup) for k, pl in enumerate(cases)]
         gf_stage(results, scratch)
         return [(pl, r['atoms'], r['info']) for pl, r in zip(cases, results)], None
     except Exception as e:  # pylint: disable=broad-except
@@ -479,6 +505,32 @@ def run(ctx):
                          dict(placements=[list(p)], seed=ctx.seed), f'{p[0]} ({p[2]}) at {p[1]}: {a[2]}'))
     evaluations = 1 + len(singles)
     npairs = clean_pairs = 0
+    # ---- d = 1 + switch "the kernel is in the file twice" (textually identical routines kern / kern2):
+    #      quick: base kernel and every placement written in upper case; thorough: every placement
+    atoms, info = judge([], ctx.seed, scratch, dup=True)
+    ctx.require(not atoms, f'duplicated base kernel without any trigger already violates: {atoms}')
+    dups = [p for p in singles if p[2] == 'upper' or not ctx.quick]
+    outd = ctx.pmap(work_batch, [(['DUP'] + bt, ctx.seed, scratch) for bt in batches([[p] for p in dups], 6)], chunksize=1)
+    errs = [e for _, e in outd if e]
+    ctx.require(not errs, 'harness error in duplicated-kernel placements: ' + ' | '.join(errs[:3]))
+    ndup_fresh = 0
+    for lst, _ in outd:
+        for pl, atoms, info in lst:
+            p = pl[0]
+            if info.get('out'):
+                outputs.add(info['out'])
+            key = (1, TRIGGERS.index(p[0]), POSITIONS.index(p[1]), CASES.index(p[2]), 1)
+            case = dict(placements=[list(p)], seed=ctx.seed, dup=True)
+            fresh = [a for a in sorted(atoms, key=lambda a: a[0] == 'program') if (a[0], a[1]) not in table[p]]
+            for a in atoms:
+                if (a[0], a[1]) in table[p]:
+                    viol.append((atom_sig(p, a), key, case, f'{p[0]} ({p[2]}) at {p[1]}, kernel duplicated: {a[2]}'))
+            if fresh:
+                ndup_fresh += 1
+                kind = fresh[0][1].replace(' (only in the second, identical copy)', '')
+                viol.append((f'{placement_name(p)} in a routine that is in the file twice: {kind}', key, case,
+                             f'{p[0]} ({p[2]}) at {p[1]}, kernel duplicated: ' + '; '.join(f'{a[1]}: {a[2]}' for a in fresh)))
+    evaluations += 1 + len(dups)
     # ---- d = 2 (thorough)
     if not ctx.quick:
         pairs = []
@@ -527,10 +579,11 @@ def run(ctx):
     ctx.require(len(outputs) >= 10, f'vacuous: only {len(outputs)} distinct program outputs observed')
     ctx.cov.update(
         evaluations=evaluations, distinct_nontrivial=evaluations - 1, exhaustive=True,
-        rule='base kernel, every applicable (trigger, position, letter case) placement, and (thorough) every unordered pair '
+        rule='base kernel, every applicable (trigger, position, letter case) placement, the same with the kernel duplicated as '
+             'a second textually identical routine (quick: upper-case placements; thorough: all), and (thorough) every unordered pair '
              'of placements in different slots with the same letter-case variant; non-trivial = the program contains at least one trigger text (all but the '
              'base kernel); all programs are pairwise distinct texts',
-        singles=len(singles), pairs=npairs, pairs_of_individually_clean_placements=clean_pairs,
+        singles=len(singles), duplicated_kernel_cases=1 + len(dups), pairs=npairs, pairs_of_individually_clean_placements=clean_pairs,
         unsupported_by_workaround=unsupported, distinct_program_outputs=len(outputs),
         placements_violating_alone=sum(1 for p in table if table[p]),
         samples=[dict(placements=[list(singles[0])], seed=ctx.seed, source=build([singles[0]], ctx.seed)['source'])],
@@ -548,7 +601,8 @@ def replay(case):
     import shutil
     scratch = tempfile.mkdtemp(prefix='c05r_', dir='/dev/shm')
     try:
-        atoms, info = judge([tuple(p) for p in case['placements']], case.get('seed', 0), scratch)
+        atoms, info = judge([tuple(p) for p in case['placements']], case.get('seed', 0), scratch,
+                            dup=bool(case.get('dup')))
     finally:
         shutil.rmtree(scratch, ignore_errors=True)
     return '; '.join(f'[{a[0]}: {a[1]}] {a[2]}' for a in atoms) if atoms else None
